@@ -510,6 +510,31 @@ theorem posterior_sparse_close {tol t : Rat} {m : POMDP} (hm : AcceptedModel t m
   rw [unnorm_sum_eq_prob_o m b a o] at this
   exact this
 
+/-! ### end to end: from "the table constructor did not throw" to the property's clauses -/
+
+/-- `POMDP::Model(o, of, s, a, t, r, d)` returned (did not throw) ⇒ for every belief, action and observation of positive probability
+    `updateBelief` is non-negative, sums to one and is weight / P(o | b, a) — although the tables need not be an exact POMDP -/
+theorem dense_table_model_end_to_end {tol : Rat} {m : POMDP} (hacc : acceptDense tol m = true)
+    {b : Vec} (hb : IsBelief m.S b) {a o : Nat} (ha : a < m.A) (ho : o < m.O) (hpos : 0 < probO m b a o) :
+    (∀ s1, s1 < m.S → 0 ≤ updateG m b a o s1) ∧ sumTo m.S (updateG m b a o) = 1 ∧
+    (∀ s1, updateG m b a o s1 = weight m b a o s1 / probO m b a o) := by
+  have hm := (acceptDense_iff tol m).mp hacc
+  have h := posterior_is_bayes hm.toNonnegModel (b := b) hb.nonneg (a := a) (o := o) ha ho hpos
+  exact ⟨h.1, h.2.1, h.2.2.1⟩
+
+/-- `POMDP::SparseModel(o, of, s, a, t, r, d)` returned ⇒ the same clauses for the tables it stores, AND its `updateBelief` is within
+    `S·2·tol·(1+tol) / P(o | b, a)` of the dense model's on the supplied tables -/
+theorem sparse_table_model_end_to_end {tol : Rat} (htol : 0 ≤ tol) {m : POMDP} (hacc : acceptSparse tol m = true)
+    {b : Vec} (hb : IsBelief m.S b) {a o : Nat} (ha : a < m.A) (ho : o < m.O)
+    (hpos : 0 < probO (sparsify tol m) b a o) :
+    (∀ s1, s1 < m.S → 0 ≤ updateG (sparsify tol m) b a o s1) ∧ sumTo m.S (updateG (sparsify tol m) b a o) = 1 ∧
+    (∀ s1, updateG (sparsify tol m) b a o s1 = weight (sparsify tol m) b a o s1 / probO (sparsify tol m) b a o) ∧
+    (∀ s1, s1 < m.S → absQ (updateG m b a o s1 - updateG (sparsify tol m) b a o s1)
+        ≤ (m.S : Rat) * (2 * tol * (1 + tol)) / probO m b a o) := by
+  obtain ⟨hm, hms⟩ := acceptSparse_sound htol hacc
+  have h := posterior_is_bayes hms.toNonnegModel (b := b) hb.nonneg (a := a) (o := o) ha ho hpos
+  exact ⟨h.1, h.2.1, h.2.2.1, fun s1 hs1 => posterior_sparse_close hm hb htol ha ho hpos hs1⟩
+
 /-- a sparse kernel visits the STORED positions only; `pat i` = position `i` is stored.  Eigen stores whatever was inserted:
     possibly explicit zeros, possibly not every zero (uncompressed or compressed alike) -/
 def sumToPat (pat : Nat → Bool) : Nat → (Nat → Rat) → Rat
@@ -567,6 +592,8 @@ theorem exNear_accepted : AcceptedModel (1/1000000) exNear := by
     have hO : exNear.O = 2 := rfl
     rw [hS] at hs1; rw [hO]
     interval_cases s1 <;> norm_num [exNear, ofList2, sumTo, absQ]
+
+example : acceptDense (1/1000000) exNear = true := (acceptDense_iff _ _).mpr exNear_accepted
 
 example : ¬ ValidModel exNear := fun h => by
   have := h.T_sum 0 0 (by decide) (by decide)
